@@ -599,8 +599,21 @@ func (c *checker) run(only string) int {
 				timeout = 120000
 			}
 		}
+		// violations that are listed known findings do not end the exploration of the entry
+		knownLabels := map[string]bool{}
+		for _, k := range c.known {
+			if k.Property == c.prop && k.Status == "known" {
+				knownLabels[k.Label] = true
+				if k.Label == e.Func+":panic" {
+					knownLabels["panic"] = true
+				}
+				if k.Label == e.Func+":deadlock" {
+					knownLabels["deadlock"] = true
+				}
+			}
+		}
 		var nvec int32
-		cfg := symgo.Config{Entry: fn, Opt: opt, Workers: c.workers, Solver: c.solver, Portfolio: c.portfolio(), QuickAssertMs: c.pc.QuickAssertMs, TimeoutMs: timeout,
+		cfg := symgo.Config{Known: knownLabels, Entry: fn, Opt: opt, Workers: c.workers, Solver: c.solver, Portfolio: c.portfolio(), QuickAssertMs: c.pc.QuickAssertMs, TimeoutMs: timeout,
 			MaxPaths: e.MaxPaths, Tier: c.tier, Bounds: e.Bounds, StopOnViolation: !c.exploreAll, Deadline: time.Now().Add(c.entryBudget(e)),
 			WantVector: func() bool { return atomic.AddInt32(&nvec, 1) <= 2 }}
 		if c.trace {
